@@ -204,7 +204,7 @@ Define(name, v) == GoKD(AdvK(Kont), SetVar(envs, Act.ser, name, v), heap, out, D
 (* unit start: bind top-level methods/classes/builtins in the unit scope, run class static initialisers of
    top-level classes lazily (at first start), then run %unit_init *)
 TopDecls == SelectSeq(Rows, LAMBDA r : r.parent = 0 /\ ~IsMarker(r))
-Builtins == {"print", "range", "len", "out", "source", "sink", "source2", "sink2", "choice"}
+Builtins == {"print", "range", "len", "out", "source", "sink", "source2", "sink2", "choice", "ext"}
 UnitScope ==
   \* every method is callable by its name (static methods of Java classes included); top-level classes by theirs
   LET named == {r \in ToSet(TopDecls) : r.op = "class_decl"}
@@ -439,6 +439,8 @@ CallValue(f, pos, named, target) ==
                 /\ sinks' = sinks \cup (IF Len(pos) = 0 THEN {} ELSE {<<s, Cur.id>> : s \in Val(pos[1]).tg})
                 /\ UNCHANGED <<c, status, nser, calls, defs>>
            [] f.s = "choice" -> \E b \in BOOLEAN : GoK(AdvK(Kont), SetVar(envs, Act.ser, target, VBool(b)), heap, out)
+           \* external code returning some integer the analysis cannot know
+           [] f.s = "ext" -> \E k \in {7, 8} : GoK(AdvK(Kont), SetVar(envs, Act.ser, target, VInt(k)), heap, out)
            [] OTHER -> Fail("builtin_" \o f.s)
     [] OTHER -> Fail("call_of_non_callable_" \o ToString(Cur.id))
 
